@@ -222,3 +222,32 @@ Proof.
   unfold run_script. generalize sig_inv_create. generalize create_scte35.
   induction ops as [|o ops IH]; intros s H; [exact H|]. cbn [fold_left]. apply IH, sig_inv_step, H.
 Qed.
+
+(* ---- setters reached through CommandInfo() / Descriptors()[i], after any history ---- *)
+Lemma upd_nth_nth {A} (l : list A) i f d : (i < length l)%nat -> nth i (upd_nth l i f) d = f (nth i l d).
+Proof. revert i. induction l as [|x l IH]; intros [|i] H; cbn in *; try lia; [reflexivity|apply IH; lia]. Qed.
+Lemma upd_nth_other {A} (l : list A) i j f d : i <> j -> nth j (upd_nth l i f) d = nth j l d.
+Proof. revert i j. induction l as [|x l IH]; intros [|i] [|j] H; cbn; try reflexivity; try congruence. apply IH. congruence. Qed.
+Lemma upd_nth_length {A} (l : list A) i f : length (upd_nth l i f) = length l.
+Proof. revert i. induction l as [|x l IH]; intros [|i]; cbn; auto. Qed.
+
+Theorem set_through_command s0 ops o :
+  let s := run_script s0 ops in
+  let s' := run_script s0 (ops ++ [SCmd o]) in
+  s_cmd s' = apply_cmd_op o (s_cmd s) /\ s_cmd_type s' = s_cmd_type s /\ s_descs s' = s_descs s /\ s_pts s' = s_pts s.
+Proof. rewrite run_app. repeat split; reflexivity. Qed.
+
+Theorem set_through_descriptor s0 ops i o d0 :
+  let s := run_script s0 ops in
+  let s' := run_script s0 (ops ++ [SDesc i o]) in
+  (i < length (s_descs s))%nat ->
+  nth i (s_descs s') d0 = apply_desc_op o (nth i (s_descs s) d0) /\
+  (forall j, j <> i -> nth j (s_descs s') d0 = nth j (s_descs s) d0) /\
+  length (s_descs s') = length (s_descs s) /\ s_cmd s' = s_cmd s.
+Proof.
+  rewrite run_app. cbn [run_script fold_left apply_sig_op with_descs s_descs s_cmd]. intros H.
+  repeat split.
+  - apply upd_nth_nth. exact H.
+  - intros j Hj. apply upd_nth_other. congruence.
+  - apply upd_nth_length.
+Qed.
